@@ -1,6 +1,6 @@
 (* Props/C18.v -- property theorems for C18 only. *)
-From LV Require Import Base Inventory InventoryFacts.
-From LVGen Require Import GenInventory.
+From LV Require Import Base Toml Serde SerdeFacts Inventory InventoryFacts InventoryToml.
+From LVGen Require Import GenInventory GenSerde.
 
 Theorem c18_tables :
   (forall c, replace_on c = spec_replace_on c) /\ partial_cmp_item_vs_acc = true /\
@@ -65,6 +65,56 @@ Print Assumptions c18_checksum_roundtrip.
 Theorem c18_hex_roundtrip : forall b, all_bytes b -> hex_decode (hex_encode b) = Some b.
 Proof. exact hex_roundtrip. Qed.
 Print Assumptions c18_hex_roundtrip.
+
+(* ---------- the TOML half ---------- *)
+
+(* the schema regenerated from the derives of Inventory / Artifact / Os / Arch (and the Checksum
+   field as a validated string) is the specified one, for every version, digest and metadata type *)
+Theorem c18_toml_tables :
+  forall V D M, s_Inventory V D M = spec_Inventory V M.
+Proof. intros V D M. reflexivity. Qed.
+Print Assumptions c18_toml_tables.
+
+(* Rendering an inventory to TOML and parsing it back gives equal artifacts: for EVERY version and
+   metadata type whose schema round-trips (rt_ok), every digest (name_ok / len_ok), every list of
+   artifacts whose version / metadata are values of those types and whose checksums are values a
+   Checksum<D> can hold, whatever tree the serializer produced -- the derived Deserialize followed
+   by Checksum::from_str rebuilds exactly the artifacts, in order *)
+Theorem c18_toml_roundtrip :
+  forall name_ok len_ok vf sq V M,
+    checksum_vf name_ok len_ok vf -> rt_ok V = true -> rt_ok M = true ->
+    forall arts t,
+      forallb (art_wf name_ok len_ok vf V M) arts = true ->
+      encode (spec_Inventory V M) (inv_sval arts) = Some t ->
+      match decode vf sq (spec_Inventory V M) t with
+      | Some x => inv_of_sval name_ok len_ok x
+      | None => None
+      end = Some arts.
+Proof. exact inventory_toml_roundtrip. Qed.
+Print Assumptions c18_toml_roundtrip.
+
+(* ... and rendering does not fail when the caller's version and metadata serialise *)
+Theorem c18_toml_renders :
+  forall V M arts, forallb (art_renders V M) arts = true ->
+    exists t, encode (spec_Inventory V M) (inv_sval arts) = Some t.
+Proof. exact inventory_renders. Qed.
+Print Assumptions c18_toml_renders.
+
+Example c18_toml_nonvacuous :
+  let ck := (sha256_name, [171; 1]) in
+  let a1 := mkTArt (VStr [49; 46; 50; 46; 48]) Linux Arm64 [104; 58; 47; 47; 120] ck (VOpt (Some (VStr [109]))) in
+  let a2 := mkTArt (VStr [50; 46; 48; 46; 48]) Darwin Amd64 [] ck (VOpt None) in
+  let vf := fun (i : nat) s => match parse_checksum (beq sha256_name) (N.eqb 2) s with Ok _ => true | Err _ => false end in
+  forallb (art_wf (beq sha256_name) (N.eqb 2) vf TyString (TyOption TyString)) [a1; a2] = true /\
+  forallb (art_renders TyString (TyOption TyString)) [a1; a2] = true /\
+  (match encode (spec_Inventory TyString (TyOption TyString)) (inv_sval [a1; a2]) with
+  | Some t => match decode vf false (spec_Inventory TyString (TyOption TyString)) t with
+              | Some x => inv_of_sval (beq sha256_name) (N.eqb 2) x
+              | None => None
+              end
+  | None => None
+  end) = Some [a1; a2].
+Proof. vm_compute. repeat split. Qed.
 
 (* Non-vacuity: incomparable versions; the fold keeps the first of two incomparable maxima. *)
 Example c18_nonvacuous :
